@@ -408,6 +408,9 @@ func c10ProjT(x interface{}) string {
 	if x == nil {
 		return "nil"
 	}
+	if e, ok := x.(error); ok {
+		return "error:" + e.Error()
+	}
 	rv := reflect.ValueOf(x)
 	switch rv.Kind() {
 	case reflect.Slice:
